@@ -1613,3 +1613,87 @@ Section OutputSorted.
       + inv H. cbn [canon_sorted]. rewrite SF. cbn [andb]. apply GO. exact HC.
   Qed.
 End OutputSorted.
+
+(* ---------- the alias-free fragment: formatting cannot make a document unparsable through anchors ---------- *)
+
+Lemma alias_free_map h kvs :
+  alias_free (CMap h kvs) = true <-> Forall (fun kv => alias_free (fst kv) = true /\ alias_free (snd kv) = true) kvs.
+Proof.
+  cbn [alias_free]. induction kvs as [|kv t IH]; [split; auto|].
+  rewrite !andb_true_iff, IH. split.
+  - intros [[A B] C]. constructor; auto.
+  - intros H. inv H. destruct H2. auto.
+Qed.
+
+Lemma alias_free_seq h es : alias_free (CSeq h es) = true <-> Forall (fun e => alias_free e = true) es.
+Proof.
+  cbn [alias_free]. induction es as [|e t IH]; [split; auto|].
+  rewrite andb_true_iff, IH. split.
+  - intros [A B]. constructor; auto.
+  - intros H. inv H. auto.
+Qed.
+
+Lemma alias_free_scan : forall n seen, alias_free n = true -> exists seen', anchors_scan n seen = Some seen'.
+Proof.
+  induction n as [h v|h v|h kvs IH|h es IH] using cnode_ind'; intros seen AF.
+  - cbn. eauto.
+  - discriminate.
+  - apply alias_free_map in AF. cbn [anchors_scan].
+    generalize (if String.eqb (h_anchor (chdr (CMap h kvs))) "" then seen else h_anchor (chdr (CMap h kvs)) :: seen).
+    induction kvs as [|kv t IHt]; intros sn; [eauto|].
+    inversion IH as [|? ? [I1 I2] IH']; subst. inversion AF as [|? ? [A1 A2] AF']; subst.
+    destruct (I1 sn A1) as [s1 E1]. rewrite E1. destruct (I2 s1 A2) as [s2 E2]. rewrite E2.
+    apply IHt; auto.
+  - apply alias_free_seq in AF. cbn [anchors_scan].
+    generalize (if String.eqb (h_anchor (chdr (CSeq h es))) "" then seen else h_anchor (chdr (CSeq h es)) :: seen).
+    induction es as [|e t IHt]; intros sn; [eauto|].
+    inversion IH as [|? ? I1 IH']; subst. inversion AF as [|? ? A1 AF']; subst.
+    destruct (I1 sn A1) as [s1 E1]. rewrite E1. apply IHt; auto.
+Qed.
+
+Theorem fmt_alias_free nonstr hastype srt kind api : S1 srt -> forall n s p n',
+  alias_free n = true -> fmt_node nonstr hastype srt kind api s p n = Ok n' ->
+  alias_free n' = true /\ anchors_ok n' = true.
+Proof.
+  intros HS1.
+  assert (G : forall n s p n', alias_free n = true ->
+            fmt_node nonstr hastype srt kind api s p n = Ok n' -> alias_free n' = true).
+  { induction n as [h v|h v|h kvs IH|h es IH] using cnode_ind'; intros s p n' AF H.
+    - cbn in H. inv H. reflexivity.
+    - discriminate.
+    - rewrite fmt_map_eq in H. apply bind_ok in H. destruct H as [D [HD H]]. inv H.
+      apply fpairs_ok in HD. apply alias_free_map in AF.
+      destruct (HS1 _ less_key less_key_strict_total D) as [HP _].
+      apply alias_free_map. apply Forall_forall. intros kv Hin.
+      apply in_map_iff in Hin. destruct Hin as [d [<- Hd]].
+      apply (Permutation_in _ HP) in Hd.
+      assert (HQ : Forall (fun d : string * (cnode * cnode) =>
+                     alias_free (fst (snd d)) = true /\ alias_free (snd (snd d)) = true) D).
+      { assert (HA : Forall (fun kv => (alias_free (fst kv) = true /\ alias_free (snd kv) = true) /\
+                         ((forall s p n', alias_free (fst kv) = true ->
+                             fmt_node nonstr hastype srt kind api s p (fst kv) = Ok n' -> alias_free n' = true) /\
+                          (forall s p n', alias_free (snd kv) = true ->
+                             fmt_node nonstr hastype srt kind api s p (snd kv) = Ok n' -> alias_free n' = true))) kvs).
+        { rewrite Forall_forall in *. intros kv Hkv. split; [auto|apply (IH kv Hkv)]. }
+        eapply Forall2_Forall_r; [exact HD|exact HA|].
+        intros kv d0 [[A1 A2] [I1 I2]] [R1 [R2 R3]]. split; [exact (I1 _ _ _ A1 R2)|exact (I2 _ _ _ A2 R3)]. }
+      rewrite Forall_forall in HQ. apply HQ. exact Hd.
+    - rewrite fmt_seq_eq in H. apply bind_ok in H. destruct H as [E [HE H]].
+      apply felems_ok in HE. apply alias_free_seq in AF.
+      assert (HC : Forall (fun e' => alias_free e' = true) E).
+      { assert (HA : Forall (fun e => alias_free e = true /\
+                         (forall s p n', alias_free e = true ->
+                            fmt_node nonstr hastype srt kind api s p e = Ok n' -> alias_free n' = true)) es).
+        { rewrite Forall_forall in *. intros e He. split; [auto|apply (IH e He)]. }
+        eapply Forall2_Forall_r; [exact HE|exact HA|]. intros e e' [A I] R. exact (I _ _ _ A R). }
+      destruct (sort_field kind api p) as [f|].
+      + apply bind_ok in H. destruct H as [K [HK H]]. inv H.
+        destruct (HS1 _ String.ltb ltb_strict_total (combine K E)) as [HP _].
+        apply alias_free_seq. apply Forall_forall. intros e Hin.
+        apply in_map_iff in Hin. destruct Hin as [d [<- Hd]].
+        apply (Permutation_in _ HP) in Hd. destruct d as [k0 e0]. apply in_combine_r in Hd.
+        rewrite Forall_forall in HC. cbn. auto.
+      + inv H. apply alias_free_seq. exact HC. }
+  intros n s p n' AF H. pose proof (G n s p n' AF H) as A. split; auto.
+  unfold anchors_ok. destruct (alias_free_scan n' [] A) as [s' E]. rewrite E. reflexivity.
+Qed.
